@@ -2,6 +2,7 @@ import ShellOp.Util
 import ShellOp.Model.Informer
 import ShellOp.Model.MonitorEnable
 import ShellOp.Model.SnapshotCache
+import ShellOp.Model.EventFlow
 /-! Line-protocol suite for C01 (informer hand-over protocol). Core-only. -/
 namespace ShellOp.Drv.C01
 open ShellOp ShellOp.Util ShellOp.Informer
@@ -12,6 +13,7 @@ structure DSt where
   sview : Cache := []     -- view of the sync-tagged reader in flight
   lastView : Cache := []  -- view returned by the read that finished last
   mon : MonitorEnable.MSt := {}
+  shared : EventFlow.Shared.St := {}   -- the factory entry of ONE index (shared-informer suite)
 
 def kindCh : Kind → String | .added => "a" | .modified => "m" | .deleted => "d"
 def showEv (e : Ev) : String := s!"{e.id}{kindCh e.kind}{e.cs}"
@@ -208,6 +210,17 @@ def mstep (d : DSt) (toks : List String) : DSt × String :=
 def stepAll (d : DSt) (toks : List String) : DSt × String :=
   match toks with
   | "m" :: rest => mstep d rest
+  | ["sh", op, i] =>
+    -- `sh start i` / `sh stop i`: resource informer i (all of ONE factory index) starts / its context
+    -- ends; the model of FactoryStore.Start/Stop answers the registrations left and whether the shared
+    -- informer behind them is running
+    match i.toNat?, (if op == "start" then some EventFlow.Shared.Op.start else if op == "stop" then some EventFlow.Shared.Op.stop else none) with
+    | some i, some mk =>
+      let st := EventFlow.Shared.step EventFlow.Shared.bindFactory d.shared (mk i)
+      let regs := (match st.fac with | some f => f.regs | none => [])
+      let regs := (regs.map fun r => (r, 0)) |> sortCache |>.map (·.1)
+      ({ d with shared := st }, s!"regs={showNats regs} running={if EventFlow.Shared.running st then 1 else 0}")
+    | _, _ => (d, "bad-op")
   | "oracle" :: "op-nobefore" :: rest =>
     -- whole-operator log: `runs` = per execution the context types it carried + exit code.
     -- No Event is handed to the hook before the first SUCCESSFUL Synchronization execution
